@@ -185,6 +185,7 @@ func runEq(ctx *common.Ctx, g *gen, n int) {
 		}
 	}
 	footer := "Definition res := Eval vm_compute in check_all_eq cases.\nPrint res.\n" +
+		"Definition model_mismatches := Eval vm_compute in eq_mismatches cases : N.\nPrint model_mismatches.\n" +
 		"Definition law_violations_outside_guard := Eval vm_compute in outside_guard_violations cases : N.\nPrint law_violations_outside_guard.\n" +
 		"Definition refs_in_transitivity_guard := Eval vm_compute in guarded_triples cases : N.\nPrint refs_in_transitivity_guard.\n"
 	ctx.WriteShards("cases_eq", header, "eq_case", footer, terms, descs, 8)
@@ -469,6 +470,7 @@ func runHt(ctx *common.Ctx, g *gen, n int) {
 		}
 	}
 	footer := "Definition res := Eval vm_compute in check_all_ht cases.\nPrint res.\n" +
+		"Definition model_mismatches := Eval vm_compute in ht_mismatches cases : N.\nPrint model_mismatches.\n" +
 		"Definition histories_in_table_guard := Eval vm_compute in ht_guarded cases : N.\nPrint histories_in_table_guard.\n" +
 		"Definition histories_not_a_finite_map_under_the_test := Eval vm_compute in ht_spec_violations cases : N.\nPrint histories_not_a_finite_map_under_the_test.\n" +
 		"Definition guarded_pools_outside_pool_ok := Eval vm_compute in ht_guard_implies_pool_ok cases : N.\nPrint guarded_pools_outside_pool_ok.\n"
